@@ -262,6 +262,10 @@ func NewLengthedBytesSlice(m [][]byte) ([]byte, error) {
 }
 
 func WriteLengthedSlice(w io.Writer, m [][]byte) error {
+	if len(m) > maxLengthBytes {
+		return errors.Errorf("huge size, %v", len(m))
+	}
+
 	if _, err := w.Write(Uint64ToBytes(uint64(len(m)))); err != nil {
 		return errors.WithStack(err)
 	}
@@ -284,7 +288,7 @@ func ReadLengthedBytesSlice(b []byte) (m [][]byte, left []byte, _ error) {
 	case err != nil:
 		return nil, nil, err
 	case i > maxLengthBytes:
-		return nil, nil, err
+		return nil, nil, errors.Errorf("huge size, %v", i)
 	default:
 		m = make([][]byte, i)
 
@@ -373,6 +377,10 @@ func (f *BytesFrameWriter) Header(bs ...[]byte) error {
 		f.headerWritten = true
 	}()
 
+	if len(bs) > maxLengthBytes {
+		return errors.Errorf("huge size, %v", len(bs))
+	}
+
 	if _, err := f.w.Write(Uint64ToBytes(uint64(len(bs)))); err != nil {
 		return errors.Wrap(err, "[]bytes length")
 	}
@@ -413,7 +421,7 @@ type BytesFrameReader struct {
 func NewBytesFrameReader(r io.Reader) (*BytesFrameReader, error) {
 	var version [2]byte
 
-	switch _, err := r.Read(version[:]); {
+	switch _, err := EnsureRead(context.Background(), r, version[:]); {
 	case errors.Is(err, io.EOF):
 	case err != nil:
 		return nil, errors.Wrap(err, "version")
